@@ -40,7 +40,7 @@ m = {
          "kind_free_text": "Lean 4 theorems over a hand-written behaviour model plus a program model regenerated from /repo's source by a Go SSA/AST extractor on every run; the hand-written parts are tied to the code by a line-protocol correspondence (real Go code in-process vs. compiled Lean driver); on a broken proof or tie a direct search on the real code looks for a failing input"},
     ],
     "checks": checks,
-    "notes": "fix: commits in /repo (genuine defects repaired, see known_findings.json): 268fc05 f5d7e26 880d058 ade8042 5daa076 91fe178 fb75916 352d290. Known findings (not repaired): nine C06 severity/prefix mismatches, eight C17 order-dependent DNS-name lints.",
+    "notes": "fix: commits in /repo (genuine defects repaired, see known_findings.json): 268fc05 f5d7e26 880d058 ade8042 5daa076 91fe178 fb75916 352d290 0ccbc55. Known findings (not repaired): nine C06 severity/prefix mismatches, eight C17 order-dependent DNS-name lints.",
     "not_applicable": na,
 }
 json.dump(m, open(os.path.join(V, "MANIFEST.json"), "w"), indent=1)
